@@ -152,13 +152,15 @@ func (store *fileStore) Reset() error {
 
 // Refresh closes the store files and then reloads from them.
 func (store *fileStore) Refresh() (err error) {
+	// The cached counters are given up only once the files are closed: when that fails (a sync error) the
+	// store stays as it was, open and numbering on, instead of starting again at 1 on top of its files.
+	if err = store.Close(); err != nil {
+		return err
+	}
+
 	if err = store.cache.Reset(); err != nil {
 		err = errors.Wrap(err, "cache reset")
 		return
-	}
-
-	if err = store.Close(); err != nil {
-		return err
 	}
 
 	creationTimePopulated, err := store.populateCache()
